@@ -1,6 +1,6 @@
 From Coq Require Import Extraction ExtrOcamlBasic NArith ZArith.
-From Storage Require Import Base.Bytes Lang.Tokens Lang.Lexer Lang.BoolGrammar Lang.Listener Lang.BoolSurface.
+From Storage Require Import Base.Bytes Lang.Tokens Lang.Lexer Lang.BoolGrammar Lang.Listener Lang.BoolSurface Lang.Regex Lang.LexerFull Lang.WordOps.
 Extraction Language OCaml.
 Definition force_types : nat * N * Z := (O, 0%N, 0%Z).
 Extraction "c12_model.ml" force_types lex_skeleton toks_of drops_of parse_start listener compile eval sem sem_dnf
-  legacy_prec fixed_prec printE atom_ok str_eqb.
+  legacy_prec fixed_prec printE atom_ok str_eqb lex_full norm neg_flags op_negated.
